@@ -51,12 +51,18 @@ SPEC = {
         "reading cell.monitors); hyper-parameter variants change the trace monitors' tags only; no learned delays",
         "programs never delete a monitor that an eligibility monitor of the same registration reads (a user-induced break, not "
         "part of the property)",
+        "layers: connection / neuron names are per layer; the model's alias search has a switch for the 'other layer' test "
+        "(LAYER_FILTER in this file: False = the code as it stands, which never skips; True = repaired)",
         "D18 and its single-trainer form (the same cell registered twice, one registration being MSTDPET) are a known finding",
     ],
 }
 DRIVER = "drivers/C15.lean"
 ERRS = {"RuntimeError", "ValueError", "TypeError", "AttributeError", "IndexError", "KeyError"}
 KNOWN_D18 = "C15:second-trainer-redirects-cell-monitors"
+KEY_XL = "C15:cross-layer-alias"
+# the model's alias search: False = `Observable.add_monitor` as it stands (the "other layer" test never skips),
+# True = that test repaired.  Flip to True once /repo carries the repair.
+LAYER_FILTER = False
 MNAMES = ["trace_post", "spike_post", "trace_pre", "spike_pre", "elig_post", "elig_pre", "u0", "u1"]
 SELS = {"n0": "neuron.spike", "n1": "neuron.voltage", "c0": "connection.synspike", "c1": "connection.syncurrent",
         "cm": "monitors", "bad": "nonexistent.thing"}
@@ -77,7 +83,7 @@ def tb(s):
 
 class Real:
     def __init__(self):
-        self.layer = None
+        self.layers = {}
         self.trainers = {}
         self.classes = {}
         self.nt = 0
@@ -85,12 +91,11 @@ class Real:
 
     # -- construction --------------------------------------------------------------------------
     def _begin(self, topo):
-        pairs = [tuple(int(x) for x in p.split(":")) for p in topo.split(",")]
-        conns = sorted({c for c, _ in pairs})
-        neus = sorted({n for _, n in pairs})
-        assert sorted(pairs) == sorted((c, n) for c in conns for n in neus), "Biclique needs the full product"
-        self.pairs = pairs
-        self.nin = {c: 3 + c for c in conns}
+        triples = [tuple(int(x) for x in p.split(":")) for p in topo.split(",")]
+        self.pairs = triples                      # cell index -> (layer, connection, neuron)
+        self.nin = {c: 3 + c for _, c, _ in triples}
+        self.layers = {}
+        self.gen = torch.Generator().manual_seed(12345)
 
         def mkconn(c):
             conn = LinearDense((self.nin[c],), (2,), 1.0, synapse=DeltaCurrent.partialconstructor(100.0),
@@ -102,13 +107,26 @@ class Real:
             return LIF((2,), 1.0, rest_v=-60.0, reset_v=-65.0, thresh_v=-50.0, refrac_t=2.0, time_constant=20.0,
                        resistance=1.0)
 
-        self.layer = Biclique([(f"c{c}", mkconn(c)) for c in conns], [(f"n{n}", mkneu()) for n in neus])
+        for l in sorted({l for l, _, _ in triples}):
+            conns = sorted({c for ll, c, _ in triples if ll == l})
+            neus = sorted({n for ll, _, n in triples if ll == l})
+            assert sorted((c, n) for ll, c, n in triples if ll == l) == sorted((c, n) for c in conns for n in neus), \
+                "a Biclique layer needs the full product"
+            # connection / neuron NAMES are per layer: two layers deliberately use the same names
+            self.layers[l] = Biclique([(f"c{c}", mkconn(c)) for c in conns], [(f"n{n}", mkneu()) for n in neus])
         self.trainers, self.classes, self.nt = {}, {}, 0
-        self.gen = torch.Generator().manual_seed(12345)
 
     def _cell(self, idx):
-        c, n = self.pairs[idx]
-        return self.layer.cells_[f"c{c}"][f"n{n}"]
+        l, c, n = self.pairs[idx]
+        return self.layers[l].cells_[f"c{c}"][f"n{n}"]
+
+    def _layer_of(self, mon):
+        ref = getattr(mon, "_observed", None)
+        mod = ref() if ref is not None else None
+        for l, layer in self.layers.items():
+            if layer is mod:
+                return l
+        return "?"
 
     def _cell_index(self, cell):
         for i in range(len(self.pairs)):
@@ -161,7 +179,7 @@ class Real:
             named_s = own_s = f"ERR({e3})"
         else:
             named_s = ",".join(f"{cn[1:]}.{MNAMES.index(mn)}:{'R' if m.registered else 'U'}:{self._count(m)}"
-                               for (cn, mn), m in named) or "-"
+                               f":L{self._layer_of(m)}" for (cn, mn), m in named) or "-"
             own = []
             mine = [m for _, m in named]
             for (cn, mn), m in named:
@@ -192,8 +210,9 @@ class Real:
         return f"T{t} tr={b(tr.training)} cells={cells_s} named={named_s} mons={mons_s} own={own_s}"
 
     def _dump(self):
-        hooks = len(self.layer._forward_hooks)
-        pre = len(self.layer._forward_pre_hooks)
+        nl = max(self.layers) + 1
+        hooks = "/".join(str(len(self.layers[l]._forward_hooks)) if l in self.layers else "0" for l in range(nl))
+        pre = sum(len(layer._forward_pre_hooks) for layer in self.layers.values())
         ts = " ; ".join(self._dump_trainer(t) for t in sorted(self.trainers)) or "-"
         return f"hooks {hooks}" + (f"[+{pre} pre-hooks]" if pre else "") + " | " + ts
 
@@ -225,12 +244,13 @@ class Real:
             self.nt += 1
             return f"idx {idx}"
         if op == "ltrain":
-            self.layer.train(tb(tok[1]))
+            self.layers[int(tok[1])].train(tb(tok[2]))
             return "ok"
         if op == "lstep":
-            inputs = {f"c{c}": ((torch.rand(1, self.nin[c], generator=self.gen) < 0.5).float(),)
-                      for c in sorted(self.nin)}
-            self.layer(inputs)
+            l = int(tok[1])
+            conns = sorted({c for ll, c, _ in self.pairs if ll == l})
+            inputs = {f"c{c}": ((torch.rand(1, self.nin[c], generator=self.gen) < 0.5).float(),) for c in conns}
+            self.layers[l](inputs)
             return "ok"
         t = int(tok[1])
         tr = self.trainers.get(t)
@@ -302,6 +322,31 @@ def d18_prone(case):
     return False
 
 
+def cross_layer_prone(case):
+    """some trainer registers cells of two different layers"""
+    topo = [tuple(int(x) for x in p.split(":")) for p in case[0].split()[1].split(",")]
+    seen = {}
+    for l in case:
+        t = l.split()
+        if t[0] == "register" and int(t[3]) < len(topo):
+            seen.setdefault(int(t[1]), set()).add(topo[int(t[3])][0])
+    return any(len(v) > 1 for v in seen.values())
+
+
+def is_cross_layer_symptom(case, i, expected, observed):
+    """the monitor listed for a cell is registered with another layer than the cell's"""
+    if not cross_layer_prone(case[: i + 1]):
+        return False
+    fe, fo = fields(expected), fields(observed)
+    for k in fe:
+        if k.endswith(".named") and k in fo:
+            le = re.findall(r"(\d+\.\d+):[RU]:\d+:L(\w+)", fe[k])
+            lo = re.findall(r"(\d+\.\d+):[RU]:\d+:L(\w+)", fo[k])
+            if [x for x, _ in le] == [x for x, _ in lo] and le != lo:
+                return True
+    return False
+
+
 def fields(view):
     """split a view into comparable fields"""
     parts = view.split(" | ")
@@ -352,6 +397,8 @@ def compare_case(case, real, resp):
 
 
 def key_of(case, d):
+    if d[1] == "spec" and is_cross_layer_symptom(case, d[0], d[2], d[3]):
+        return KEY_XL
     if d[1] == "spec" and is_d18_symptom(case, d[0], d[2], d[3]):
         return KNOWN_D18
     fe, fo = fields(d[2]), fields(d[3])
@@ -370,7 +417,7 @@ def shrink_case(ctx, case, kind, key, max_tries=60):
             return False
         if any(x.startswith("harness-exception") for x in (d[2], d[3])) or "bad-op" in d[2]:
             return False
-        return (key_of(c, d) == KNOWN_D18) == (key == KNOWN_D18)
+        return key_of(c, d) == key or (key not in (KNOWN_D18, KEY_XL) and key_of(c, d) not in (KNOWN_D18, KEY_XL))
 
     cur = list(case)
     changed = True
@@ -393,7 +440,7 @@ def run_cases(ctx, cases, ex: Exploration, max_findings=6):
     resp = ctx.run_driver(DRIVER, flat)
     pos = 0
     nfound = 0
-    known_seen = 0
+    seen_keys = {}
     for case, real in zip(cases, reals):
         r = resp[pos:pos + len(case)]
         pos += len(case)
@@ -411,11 +458,11 @@ def run_cases(ctx, cases, ex: Exploration, max_findings=6):
         if any(x.startswith("harness-exception") for x in (d[2], d[3])) or "bad-op" in d[2]:
             raise RuntimeError(f"harness/driver protocol failure on {case[:d[0] + 1]}: {d}")
         key = key_of(case, d)
-        if key == KNOWN_D18:
-            known_seen += 1
-            ex.count("known_D18_symptom", case[d[0]].split()[0])
-            if known_seen > 1:
-                continue                    # one shrunk witness per run is enough
+        if key in (KNOWN_D18, KEY_XL):
+            seen_keys[key] = seen_keys.get(key, 0) + 1
+            ex.count("symptom_" + key.split(":", 1)[1], case[d[0]].split()[0])
+            if seen_keys[key] > 1:
+                continue                    # one shrunk witness per run and key is enough
         else:
             nfound += 1
             if nfound > max_findings:
@@ -439,13 +486,21 @@ def nontrivial(case, real):
 # ---------------------------------------------------------------------------------------------
 # generators
 
-TOPOS = ["0:0,1:0", "0:0,0:1", "0:0,0:1,1:0,1:1", "0:0,1:0,2:0"]
+TOPOS = ["0:0:0,0:1:0", "0:0:0,0:0:1", "0:0:0,0:0:1,0:1:0,0:1:1", "0:0:0,0:1:0,0:2:0"]
+# two layers whose connections / neurons carry the same names
+TOPOS2 = ["0:0:0,1:0:0", "0:0:0,0:1:0,1:0:0", "0:0:0,1:0:0,1:0:1", "0:0:0,0:1:0,1:0:0,1:1:0"]
 
 
-def random_program(rng, prone: bool, maxlen=40):
-    topo = rng.choice(TOPOS)
+def begin_line(topo):
+    return f"begin {topo}" + (" T" if LAYER_FILTER else "")
+
+
+def random_program(rng, prone: bool, maxlen=40, two_layers=False):
+    topo = rng.choice(TOPOS2 if two_layers else TOPOS)
     ncells = len(topo.split(","))
-    lines = [f"begin {topo}"]
+    nlayers = 1 + max(int(p.split(":")[0]) for p in topo.split(","))
+    lstep = lambda: f"lstep {rng.randrange(nlayers)}"
+    lines = [begin_line(topo)]
     ntr = rng.choice([1, 2, 2, 3] if prone else [1, 1, 2, 2, 3])
     kinds = []
     for i in range(ntr):
@@ -472,7 +527,7 @@ def random_program(rng, prone: bool, maxlen=40):
     length = rng.randint(6, maxlen)
     while len(lines) < length + 1 + ntr:
         if not alive:
-            lines.append("lstep")
+            lines.append(lstep())
             continue
         r = rng.random()
         t = rng.choice(sorted(alive)) if rng.random() < 0.97 else rng.randrange(ntr + 1)
@@ -481,7 +536,7 @@ def random_program(rng, prone: bool, maxlen=40):
             n = rng.randrange(3)
             c = rng.randrange(ncells) if rng.random() < 0.97 else ncells
             if t in alive and c < ncells and n not in names and not can_register(t, c):
-                lines.append("lstep")
+                lines.append(lstep())
                 continue
             lines.append(f"register {t} {n} {c} {rng.choice([0, 0, 1])}")
             if t in alive and c < ncells and n not in names:
@@ -511,9 +566,9 @@ def random_program(rng, prone: bool, maxlen=40):
         elif r < 0.53:
             lines.append(f"ttrain {t} {b(rng.random() < 0.55)}")
         elif r < 0.6:
-            lines.append(f"ltrain {b(rng.random() < 0.6)}")
+            lines.append(f"ltrain {rng.randrange(nlayers)} {b(rng.random() < 0.6)}")
         elif r < 0.82:
-            lines.append("lstep")
+            lines.append(lstep())
         elif r < 0.92:
             lines.append(f"tstep {t}")
         elif r < 0.97:
@@ -529,14 +584,20 @@ def random_program(rng, prone: bool, maxlen=40):
 
 def scripted_cases():
     """fixed scenarios (also kept under corpus/C15)"""
-    d17 = ["begin 0:0,1:0", "trainer 0 STDP", "register 0 0 0 0", "register 0 1 1 0", "lstep", "delcell 0 0", "lstep",
-           "lstep", "tstep 0", "delmon 0 1 0", "lstep", "register 0 2 0 0", "lstep", "tstep 0"]
-    d17b = ["begin 0:0,0:1", "trainer 1 MSTDPET", "register 0 0 0 0", "register 0 1 1 0", "lstep", "delmon 0 0 7",
-            "delcell 0 1", "lstep", "tstep 0", "ttrain 0 F", "lstep", "ttrain 0 T", "lstep", "tstep 0"]
-    d18 = ["begin 0:0,1:0", "trainer 1 MSTDPET", "trainer 0 STDP", "register 0 0 0 0", "lstep", "register 1 0 0 0", "lstep"]
-    d18b = ["begin 0:0,1:0", "trainer 1 MSTDPET", "trainer 0 STDP", "register 0 0 0 0", "register 1 0 0 0", "delcell 1 0",
-            "lstep"]
-    return [d17, d17b, d18, d18b]
+    B = begin_line
+    d17 = [B("0:0:0,0:1:0"), "trainer 0 STDP", "register 0 0 0 0", "register 0 1 1 0", "lstep 0", "delcell 0 0",
+           "lstep 0", "lstep 0", "tstep 0", "delmon 0 1 0", "lstep 0", "register 0 2 0 0", "lstep 0", "tstep 0"]
+    d17b = [B("0:0:0,0:0:1"), "trainer 1 MSTDPET", "register 0 0 0 0", "register 0 1 1 0", "lstep 0", "delmon 0 0 7",
+            "delcell 0 1", "lstep 0", "tstep 0", "ttrain 0 F", "lstep 0", "ttrain 0 T", "lstep 0", "tstep 0"]
+    d18 = [B("0:0:0,0:1:0"), "trainer 1 MSTDPET", "trainer 0 STDP", "register 0 0 0 0", "lstep 0", "register 1 0 0 0",
+           "lstep 0"]
+    d18b = [B("0:0:0,0:1:0"), "trainer 1 MSTDPET", "trainer 0 STDP", "register 0 0 0 0", "register 1 0 0 0",
+            "delcell 1 0", "lstep 0"]
+    # one trainer, two cells of two DIFFERENT layers with equal connection / neuron names
+    xl = [B("0:0:0,1:0:0"), "trainer 0 STDP", "register 0 0 0 0", "register 0 1 1 0", "lstep 1", "lstep 1", "lstep 0",
+          "tstep 0"]
+    xl2 = [B("0:0:0,1:0:0"), "trainer 1 MSTDPET", "register 0 0 0 0", "register 0 1 1 0", "lstep 1", "lstep 0", "tstep 0"]
+    return [d17, d17b, d18, d18b, xl, xl2]
 
 
 def corpus_cases():
@@ -545,7 +606,8 @@ def corpus_cases():
     out = []
     if d.exists():
         for f in sorted(d.glob("*.ops")):
-            out.append([l for l in f.read_text().splitlines() if l.strip() and not l.startswith("#")])
+            lines = [l for l in f.read_text().splitlines() if l.strip() and not l.startswith("#")]
+            out.append([begin_line(l.split()[1]) if l.startswith("begin") else l for l in lines])
     return out
 
 
@@ -562,7 +624,9 @@ def explore(ctx) -> Exploration:
     nprone = 120 if not thorough else 700
     free = [random_program(rng, False) for _ in range(nfree)]
     prone = [random_program(rng, True) for _ in range(nprone)]
-    cases += free + prone
+    ntwo = 120 if not thorough else 700
+    two = [random_program(rng, False, two_layers=True) for _ in range(ntwo)]
+    cases += free + prone + two
     for c in cases:
         for l in c:
             t = l.split()
@@ -571,17 +635,20 @@ def explore(ctx) -> Exploration:
                 ex.count("trainer_class", t[2] if len(t) > 2 else t[1])
         ex.count("topology", c[0].split()[1])
         ex.count("program_length", str(10 * ((len(c) - 1) // 10)) + "+")
-        ex.count("stream", "D18-prone" if d18_prone(c) else "D18-free")
+        ex.count("stream", ("two-layers-in-one-trainer " if cross_layer_prone(c) else "") +
+                 ("D18-prone" if d18_prone(c) else "D18-free"))
     run_cases(ctx, cases, ex)
     ex.rule = ("cases = corpus + 4 scripted scenarios (D17: deleting one of two cells that share pooled monitors, on shared neuron "
                "and on shared connection; D18: second trainer on a cell, then its deletion) + seeded random programs (length <= 40) "
                "over the ten operations with 1-3 trainers (STDP, MSTDP, MSTDPET) on Biclique layers with 2-4 cells sharing "
-               "neurons and/or connections; the D18-free stream never lets a cell used by an MSTDPET registration be registered a "
+               "neurons and/or connections, and (third stream) on TWO layers with equal connection / neuron names whose cells one "
+               "trainer may register side by side; the D18-free stream never lets a cell used by an MSTDPET registration be registered a "
                "second time, the D18-prone stream does; 3% of trainer-addressed ops name a dropped / never-created trainer; a case "
                "is non-trivial when some monitor recorded at least one observation; distinct = distinct protocol text")
     ex.samples = [scripted[0], free[0], prone[0]]
     ex.extra["streams"] = {"corpus": ncorpus, "scripted": len(scripted), "random_D18_free": len(free),
-                           "random_D18_prone": len(prone)}
+                           "random_D18_prone": len(prone), "random_two_layers": len(two)}
+    ex.extra["model_layer_filter"] = LAYER_FILTER
     return ex
 
 
